@@ -73,7 +73,27 @@ class SimHooks(Hooks):
     def free_call(self, I, node, name, args, p):
         if name in ('to_string',):
             return [(q, StrV('to_string', vals[0])) for q, vals in I.eval_args(args, p)]
+        if name in ('instrEnumToStr', 'oprInstrEnumToStr', 'syscallEnumToStr'):
+            # defined in hex.cpp (another translation unit of the same executable): interpret that definition
+            out = []
+            for q, vals in I.eval_args(args, p):
+                out.append((q, call_other_tu('hex.cpp@hexsim', 'hex::' + name, vals)))
+            return out
         return None
+
+
+def call_other_tu(tu, qname, vals):
+    idx2 = cast.load(tu)
+    f = idx2.func(qname)
+    I2 = Interp(idx2, None, Hooks())
+    p2 = Path({})
+    for prm, v in zip(f.params, vals):
+        p2.locals[prm['id']] = v
+    res = I2.stmt(f.body, p2)
+    rets = [(q, rv) for q, fl, rv in res if fl == 'return']
+    if len(rets) != 1:
+        raise AnalysisBroken('%s does not return a single value for %r' % (qname, vals))
+    return rets[0][1]
 
 
 def processor_fields(tracing=0, truncate=1, O=None):
